@@ -237,7 +237,26 @@ impl Shim {
                     sort.to_smt(),
                     smtref::print_bv(d, &Bv::new(a.dw, a.default.clone()), style)
                 );
+                // solvers also print chains in which an index is written twice (the outer store wins) or in
+                // which the default value is stored explicitly (z3 keeps both writes of
+                // `store(store(store(c,4,5),1,7),4,8)`): add such shadowed / redundant stores
+                let mut chain: Vec<(Bv, Bv)> = vec![];
                 for (k, val) in entries.iter() {
+                    if self.randomize && self.rng.below(3) == 0 {
+                        let junk = Bv::new(a.dw, (val.v.clone() + 1u32 + self.rng.below(5)) % val.modulus());
+                        let pos = self.rng.below(chain.len() as u64 + 1) as usize;
+                        chain.insert(pos, (k.clone(), junk));
+                    }
+                    chain.push((k.clone(), val.clone()));
+                }
+                if self.randomize && a.iw <= 16 && self.rng.below(4) == 0 {
+                    let k = Bv::from_u64(a.iw, self.rng.below(1u64 << a.iw));
+                    if !entries.iter().any(|(e, _)| *e == k) {
+                        let pos = self.rng.below(chain.len() as u64 + 1) as usize;
+                        chain.insert(pos, (k, Bv::new(a.dw, a.default.clone())));
+                    }
+                }
+                for (k, val) in chain.iter() {
                     out = format!("(store {} {} {})", out, smtref::print_bv(i, k, style), smtref::print_bv(d, val, style));
                 }
                 out
